@@ -67,6 +67,17 @@ TAGS = "ifc"
 NPD = {"i": np.int64, "f": np.float64, "c": np.complex128}
 PYT = {"i": int, "f": float, "c": complex}
 MAXMAG = 1 << 45
+# documented positional order of the anchored callables, as of /repo HEAD 8caea4c (literal on purpose: a re-ordered
+# signature in the code under test must show up as a difference between the positional and the keyword call)
+POSITIONAL = {
+    "electrical_signal": ["signal", "noise", "dtype"],
+    "optical_signal": ["signal", "noise", "n_pol", "dtype"],
+    "copy": ["n"],
+    "__call__": ["domain", "shift"],
+    "w": ["shift"],
+    "abs": ["by"],
+    "power": ["by"],
+}
 BINOPS = ("add", "sub", "mul")
 RAWOPS = ("addR", "raddR", "subR", "rsubR", "mulR", "rmulR")
 
@@ -326,6 +337,36 @@ def _arrays(x):
     return out
 
 
+def _bits(v):
+    """bit-exact fingerprint of a returned value (object with signal/noise, ndarray, scalar)"""
+    if isinstance(v, np.ndarray):
+        return ("nd", str(v.dtype), v.shape, v.tobytes())
+    if hasattr(v, "signal"):
+        return ("obj", type(v).__name__, getattr(v, "n_pol", None), _bits(v.signal),
+                None if getattr(v, "noise", None) is None else _bits(v.noise))
+    if isinstance(v, (np.generic,)):
+        return ("np", str(v.dtype), v.tobytes())
+    return ("py", type(v).__name__, repr(v))
+
+
+def twin(pos_call, kw_call):
+    """run the positional and the keyword form of one call; returns (same, description)"""
+    out = []
+    for f in (pos_call, kw_call):
+        try:
+            out.append(("ok", _bits(f())))
+        except Timeout:
+            raise
+        except Exception as e:  # noqa
+            out.append(("raise", type(e).__name__))
+    if out[0] == out[1]:
+        return True, ""
+    d = []
+    for tag, o in zip(("positional", "keyword"), out):
+        d.append(f"{tag}: " + (f"raised {o[1]}" if o[0] == "raise" else f"returned {str(o[1][:3])[:80]}"))
+    return False, "; ".join(d)
+
+
 class Guard:
     """monitors (a) and (c) of DESIGN §2.5 around one call: operand buffers are write-protected and compared byte
     for byte afterwards; the result must not share memory with any operand"""
@@ -457,9 +498,17 @@ class Eval:
                       f"noise={'-' if c['noise'] is None else c['noise']['form']}:dtype={c['dtype']}")
         exp = ctor_expect(c)
         g = Guard([sraw, nraw])
+        vals = {"signal": sraw, "noise": nraw, "n_pol": c["npol"], "dtype": kw.get("dtype")}
+        order = POSITIONAL[name]
+        same, why = twin(lambda: cls(*[vals[k] for k in order]),
+                         lambda: cls(signal=sraw, noise=nraw, **kw))
+        if not same:
+            self.v(f"C01:positional:{name}", f"{name}({', '.join(order)}) positionally != by keyword "
+                   f"(signal {shape_of(c['sig'])}, noise={None if c['noise'] is None else shape_of(c['noise'])}, "
+                   f"n_pol={c['npol']}, dtype={c['dtype']}): {why}")
         try:
             with g:
-                x = cls(sraw, nraw, **kw)
+                x = cls(signal=sraw, noise=nraw, **kw)
         except Exception as e:  # noqa
             if exp is not None and exp != "skip":
                 self.v(f"C01:ctor-rejects:{c['cls']}:{c['sig']['shape']}:npol={c['npol']}",
@@ -615,6 +664,10 @@ class Eval:
         g = Guard([a])
         idx = list(range(L)) if n is None else list(range(L))[:n]
         self.feat.add(f"copy:{'empty' if idx == [] else 'ok'}:{'all' if n is None else 'n'}")
+        if n is not None:
+            same, why = twin(lambda: a.copy(n), lambda: a.copy(n=n))
+            if not same:
+                self.v("C01:positional:copy", f"{name}.copy({n}) != {name}.copy(n={n}): {why}")
         try:
             with g:
                 r = a.copy() if n is None else a.copy(n)
@@ -662,6 +715,9 @@ class Eval:
         name = type(a).__name__
         g = Guard([a])
         self.feat.add(f"op:transform:{dom}:{'shift' if shift else 'noshift'}")
+        same, why = twin(lambda: a(dom, shift), lambda: a(domain=dom, shift=shift))
+        if not same:
+            self.v("C01:positional:__call__", f"{name}('{dom}', {shift}) != {name}(domain='{dom}', shift={shift}): {why}")
         try:
             with g:
                 r = a(dom, shift)
@@ -692,6 +748,25 @@ class Eval:
         if getattr(r, "n_pol", 1) != getattr(a, "n_pol", 1):
             self.v(f"C01:transform-npol:{dom}", f"{name}('{dom}', {shift}): n_pol {getattr(a, 'n_pol', 1)} -> {getattr(r, 'n_pol', 1)}")
         return r
+
+    def accessors(self, x):
+        """positional twins of w(shift), abs(by), power(by) (documented order = POSITIONAL) on a result object"""
+        name = type(x).__name__
+        g = Guard([x])
+        with g:
+            for sh in (False, True):
+                same, why = twin(lambda: x.w(sh), lambda: x.w(shift=sh))
+                if not same:
+                    self.v("C01:positional:w", f"{name}.w({sh}) != {name}.w(shift={sh}): {why}")
+            for by in ("signal", "noise", "all"):
+                for fn in ("abs", "power"):
+                    f = getattr(x, fn)
+                    same, why = twin(lambda: f(by), lambda: f(by=by))
+                    if not same:
+                        self.v(f"C01:positional:{fn}", f"{name}.{fn}('{by}') != {name}.{fn}(by='{by}'): {why}")
+        for m in g.changed():
+            self.v("C01:operand-modified", f"w/abs/power: {m}")
+        self.feat.add("accessors")
 
     def transform(self, x):
         """domain-transform clause: x('w'), x('t') return the same class / n_pol / length / noise presence"""
@@ -1189,6 +1264,7 @@ def run_impl(case):
                 except ArithmeticError as e:
                     res["final"] = "unrepresentable " + str(e)
                 if not contract(x, type(x).__name__):
+                    ev.accessors(x)
                     ev.transform(x)
                     if env:
                         ev.transform(env[0])
